@@ -125,6 +125,24 @@ def isa_trace_ops(rng, nimg, ninsn):
     return ops
 
 
+VOLTS = [0, 1, 999, 2500, 4999, 5000, 5001, 70000, -1, -1000000, -2000000, 2000000]      # incl. NaN / -inf / +inf codes
+
+
+def full_cfg(rng):
+    """a complete MachineConfig (as the CLI / the TUI build it): inputs, board inputs incl. hostile voltages, jumpers, UIO levels"""
+    return {"inr": [rng.choice([0, 1, 255, rng.randrange(256)]) for _ in range(4)], "di1": rng.choice([0, 255, rng.randrange(256)]),
+            "temp": rng.choice(VOLTS + [rng.randrange(0, 5001)]), "ai1": rng.choice(VOLTS + [rng.randrange(0, 5001)]),
+            "ai2": rng.choice(VOLTS + [rng.randrange(0, 5001)]), "j1": rng.random() < 0.5, "j2": rng.random() < 0.5,
+            "uio1": rng.random() < 0.5, "uio2": rng.random() < 0.5, "uio3": rng.random() < 0.5}
+
+
+def new_checked(rng, image=None):
+    op = {"op": "new_checked", "cfg": full_cfg(rng)}
+    if image is not None:
+        op.update({"image": image, "ss": rng.choice([-1, 0, 16, 32, 48, 64]), "ps": rng.choice([-2, -1, 255, len(image), 7])})
+    return op
+
+
 def io_exec_ops(rng, n):
     """instructions FETCHED from I/O addresses: a program in the input registers FC..FF (reached by a jump, then wrapping to address 0) and an
     instruction whose opcode lies at 0xEE / 0xEF with its operand bytes at 0xF0.. (board registers) - no wait cycle for any of these reads"""
